@@ -115,7 +115,7 @@ struct Engine {
         int unit, code;
         bool dmod;
     };
-    void Check(const char* form, u16 op, u16 exp, const VState& s, const std::vector<Use>& uses, bool check_access) {
+    void Check(const char* form, u16 op, u16 exp, const VState& s, const std::vector<Use>& uses, bool check_access, bool check_others = true) {
         u16 words[2] = {op, exp};
         VState out;
         RunResult rr;
@@ -123,6 +123,8 @@ struct Engine {
         ++res.evaluations, ++res.transitions, ++res.traces_validated;
         if (rr.outcome == OUT_UNIMPLEMENTED)
             return;
+        if (rr.outcome != OUT_OK && !check_others)
+            return; // generic layer: reserved operand encodings end in a deliberate assertion (C18's business)
         if (rr.outcome != OUT_OK) {
             Fail(Fmt("%s:outcome=%s", form, OutcomeName(rr.outcome)), Fmt("opcode %04X ends with %s %s", op, OutcomeName(rr.outcome), rr.assert_expr), op, exp, s);
             return;
@@ -163,7 +165,7 @@ struct Engine {
             bool used = false;
             for (auto& u : uses)
                 used |= u.unit == i;
-            if (!used && out.r[i] != s.r[i]) {
+            if (check_others && !used && out.r[i] != s.r[i]) {
                 Fail(Fmt("%s:other-register", form), Fmt("opcode %04X (%s): r%d changed from %04X to %04X although the instruction names r%d", op, form, i, s.r[i], out.r[i], uses[0].unit), op, exp, s);
                 return;
             }
@@ -185,12 +187,163 @@ struct Engine {
         }
         digests.insert(Mix(dg));
     }
+
+    // ---- generic layers over the whole opcode space ----
+    // the address-register uses an instruction form names (operand types of the decode table row)
+    static bool UsesOf(const DecodeInfo& d, const VState& s, std::vector<Use>& uses) {
+        uses.clear();
+        std::string n = d.name;
+        bool dm_i = false, dm_j = false, dm = false;
+        if (n == "modr_dmod" || n == "modr_i2_dmod" || n == "modr_d2_dmod")
+            dm = true;
+        if (n == "modr_demod" || n == "modr_ddmod")
+            dm_i = true;
+        if (n == "modr_edmod" || n == "modr_ddmod")
+            dm_j = true;
+        auto T = [&](int i) { return i < d.nargs ? std::string(d.arg_types[i]) : std::string(); };
+        for (int i = 0; i < d.nargs; ++i) {
+            std::string t = T(i), t1 = T(i + 1), t2 = T(i + 2);
+            if ((t == "Rn" || t == "R45" || t == "R0123") && ArgIs(d, i + 1, "StepZIDS")) {
+                int unit = t == "R45" ? 4 + d.args[i] : d.args[i];
+                uses.push_back({unit, (int)d.args[i + 1], dm});
+                ++i;
+            } else if ((t == "ArRn1" || t == "ArRn2") && (t1 == "ArStep1" || t1 == "ArStep2" || t1 == "ArStep1Alt")) {
+                int si = t1 == "ArStep1Alt" ? d.args[i + 1] + 2 : d.args[i + 1];
+                uses.push_back({(int)s.arrn[d.args[i]], (int)s.arstep[si], false});
+                ++i;
+            } else if ((t == "ArpRn1" || t == "ArpRn2") && t1.compare(0, 7, "ArpStep") == 0 && t2.compare(0, 7, "ArpStep") == 0) {
+                bool di = dm_i, dj = dm_j;
+                // mma-style rows carry their two modulo-disable flags as the next two bool operands
+                if (T(i + 3) == "bool" && T(i + 4) == "bool" && std::string(d.name) == "mma")
+                    di = d.args[i + 3], dj = d.args[i + 4];
+                uses.push_back({(int)s.arprni[d.args[i]], (int)s.arpstepi[d.args[i + 1]], di});
+                uses.push_back({(int)s.arprnj[d.args[i]] + 4, (int)s.arpstepj[d.args[i + 2]], dj});
+                i += 2;
+            }
+        }
+        if (n == "modr_i2" || n == "modr_i2_dmod")
+            uses = {{(int)d.args[0], 4, dm}};
+        if (n == "modr_d2" || n == "modr_d2_dmod")
+            uses = {{(int)d.args[0], 5, dm}};
+        if ((n == "max_ge_r0" || n == "max_gt_r0" || n == "min_le_r0" || n == "min_lt_r0") && ArgIs(d, 1, "StepZIDS"))
+            uses = {{0, (int)d.args[1], false}};
+        if (uses.empty())
+            return false;
+        // a form that also names one of those registers as a plain operand (mov [r1]+, r1; the implicit r6 of the _r6 forms) is outside the statement
+        if (n.find("r6") != std::string::npos)
+            for (auto& u : uses)
+                if (u.unit == 6)
+                    return false;
+        for (int i = 0; i < d.nargs; ++i) {
+            std::string t = T(i);
+            int reg = -1;
+            if (t == "Register" && kRegister[d.args[i] & 31] >= R_r0 && kRegister[d.args[i] & 31] <= R_r7)
+                reg = kRegister[d.args[i] & 31] - R_r0;
+            if (t == "RnOld")
+                reg = d.args[i] < 6 ? d.args[i] : d.args[i] == 6 ? 7 : -1;
+            if (t == "Rn" && !ArgIs(d, i + 1, "StepZIDS"))
+                reg = d.args[i];
+            for (auto& u : uses)
+                if (u.unit == reg)
+                    return false;
+        }
+        return true;
+    }
+    VState GenericState(int variant) {
+        VState s = base;
+        for (int k = 0; k < 4; ++k)
+            s.r[k] = (u16)(0x6420 + 8 * k), s.r[4 + k] = (u16)(0xCC20 + 8 * k);
+        const u16 rn[4] = {0, 5, 2, 7}, st[4] = {1, 2, 4, 3}, pi[4] = {0, 1, 2, 3}, pj[4] = {1, 0, 3, 2}, si[4] = {1, 2, 5, 3}, sj[4] = {2, 1, 4, 6};
+        for (int k = 0; k < 4; ++k) {
+            s.arrn[k] = rn[(k + variant) & 3], s.arstep[k] = st[(k + variant) & 3];
+            s.arprni[k] = pi[(k + variant) & 3], s.arprnj[k] = pj[(k + variant) & 3];
+            s.arpstepi[k] = si[(k + 3 * variant) & 3], s.arpstepj[k] = sj[(k + variant) & 3];
+        }
+        s.stepi = 3, s.stepj = 0x7D, s.stepi0 = 0x0005, s.stepj0 = 0xFFF9;
+        if (variant & 1)
+            s.cmd = 0;
+        return s;
+    }
+    // E: every opcode whose form names address registers with steps: the registers step as configured
+    void GenericStep(u16 op, const DecodeInfo& d) {
+        for (int variant = 0; variant < 4; ++variant) {
+            VState s = GenericState(variant);
+            std::vector<Use> uses;
+            if (!UsesOf(d, s, uses))
+                return;
+            Check(Fmt("form:%s", d.name).c_str(), op, 0x0010, s, uses, false, false);
+        }
+    }
+    // D: every opcode that accesses memory at an address register's value: with bit reversal enabled (modulo off)
+    // the access goes to the bit-reversed address and not to the raw register value
+    void GenericBitRev(u16 op, const DecodeInfo& d) {
+        std::string n = d.name;
+        if (n == "undefined")
+            return;
+        VState s0 = GenericState(0);
+        u16 words[2] = {op, 0x0010};
+        VState out;
+        RunResult r0;
+        impl.api->run(impl.m, &s0, words, 2, 1, &out, &r0);
+        ++res.evaluations, ++res.transitions, ++res.traces_validated;
+        if (r0.outcome != OUT_OK || r0.n_logged == 0)
+            return;
+        std::vector<Use> named;
+        if (!UsesOf(d, s0, named))
+            return; // only indirect addressing through a named address register ([r7+imm], loop-frame pointers etc. are other modes)
+        for (int unit = 0; unit < 8; ++unit) {
+            bool is_named = false;
+            for (auto& u : named)
+                is_named |= u.unit == unit;
+            if (!is_named)
+                continue;
+            u16 p = s0.r[unit];
+            bool hit = false;
+            for (int i = 0; i < r0.n_logged; ++i)
+                hit |= r0.log[i].addr == 0x20000u + p;
+            if (!hit)
+                continue;
+            VState s1 = s0;
+            s1.br[unit] = 1, s1.m[unit] = 0;
+            s1.r[unit] = BitRev16(p);
+            RunResult r1;
+            impl.api->run(impl.m, &s1, words, 2, 1, &out, &r1);
+            ++res.evaluations, ++res.transitions, ++res.traces_validated;
+            if (r1.outcome != OUT_OK)
+                continue;
+            bool at_rev = false, at_raw = false;
+            for (int i = 0; i < r1.n_logged; ++i) {
+                at_rev |= r1.log[i].addr == 0x20000u + p;
+                at_raw |= r1.log[i].addr == 0x20000u + BitRev16(p);
+            }
+            digests.insert(Mix(op * 8 + unit));
+            if (!at_rev || at_raw)
+                res.AddViolation(Fmt("c10:form:%s:access-address:bitrev", d.name),
+                                 Fmt("opcode %04X (%s): with r%d=%04X the instruction accesses memory at %04X; with bit reversal enabled for r%d (modulo off) and "
+                                     "r%d=%04X (whose reversal is %04X) it %s", op, d.name, unit, p, p, unit, unit, BitRev16(p), p,
+                                     at_raw ? "accesses the raw register value instead of its bit reversal" : "no longer accesses the reversed address"),
+                                 Fmt("c10gen %u %d", op, unit));
+        }
+    }
 };
 
 inline int RunReplay(const std::string& r, Result& res) {
     QuietStdout quiet;
     unsigned op, exp;
     int n = 0;
+    {
+        unsigned gop;
+        int gunit;
+        if (std::sscanf(r.c_str(), "c10gen %u %d", &gop, &gunit) == 2) {
+            Engine e(res);
+            DecodeInfo d;
+            e.impl.api->decode((u16)gop, &d);
+            e.GenericBitRev((u16)gop, d);
+            for (auto& v : res.violations)
+                quiet.Say(Fmt("  %s\n    %s\n", v.key.c_str(), v.text.c_str()));
+            return res.violations.empty() ? 0 : 1;
+        }
+    }
     if (std::sscanf(r.c_str(), "c10 %u %u %n", &op, &exp, &n) != 2)
         return 2;
     VState s;
@@ -220,7 +373,12 @@ inline int RunReplay(const std::string& r, Result& res) {
     else if (nm == "mov" && d.nargs == 3 && ArgIs(d, 1, "Rn")) uses = {{d.args[1], d.args[2], false}}, access = true;
     else if (nm == "mov_repc_to" && ArgsAre(d, {"ArRn1", "ArStep1"})) uses = {{(int)s.arrn[d.args[0]], (int)s.arstep[d.args[1]], false}}, access = true;
     else if (nm == "movr" && ArgsAre(d, {"ArRn2", "ArStep2", "Abh"})) uses = {{(int)s.arrn[d.args[0]], (int)s.arstep[d.args[1]], false}}, access = true;
-    else return 2;
+    else if (Engine::UsesOf(d, s, uses)) {
+        e.Check(Fmt("form:%s", d.name).c_str(), (u16)op, (u16)exp, s, uses, false, false);
+        for (auto& v : res.violations)
+            quiet.Say(Fmt("  %s\n    %s\n", v.key.c_str(), v.text.c_str()));
+        return res.violations.empty() ? 0 : 1;
+    } else return 2;
     e.Check("replay", (u16)op, (u16)exp, s, uses, access);
     for (auto& v : res.violations)
         quiet.Say(Fmt("  %s\n    %s\n", v.key.c_str(), v.text.c_str()));
@@ -372,6 +530,15 @@ inline void Run(const Args& args, Result& res) {
                                                 e.Check("modr[arp]", op, 0, s, {{ri, ci, di}, {rj + 4, cj, dj}}, false);
                                             }
                             }
+                // ---- D/E: all 65536 first words ----
+                for (u32 op = idx; op < 0x10000; op += cnt) {
+                    DecodeInfo d;
+                    e.impl.api->decode((u16)op, &d);
+                    if (d.rows_matching != 1)
+                        continue;
+                    e.GenericStep((u16)op, d);
+                    e.GenericBitRev((u16)op, d);
+                }
                 blk.evaluations = local.evaluations;
                 blk.transitions = local.transitions;
                 blk.traces = local.traces_validated;
@@ -383,7 +550,10 @@ inline void Run(const Args& args, Result& res) {
                "modulo-disable variants) is executed on the real interpreter for: all 8 registers x every start value (every 3rd in the quick tier) x "
                "steps 0,+1,-1,+2,-2 x bit-reverse x compatibility mode x end-pointer mode; all 128 7-bit steps x 7 16-bit steps x stp16 x mode; all "
                "512 modulo values x all offsets 0..mask x 3 high-bit patterns x both modes x +1,-1,0; every ar/arp selector and all 8 step codes; the "
-               "new register value, untouched registers and the logged access address are compared with linear / cyclic-walk / bit-reverse arithmetic";
+               "new register value, untouched registers and the logged access address are compared with linear / cyclic-walk / bit-reverse arithmetic; "
+               "generic layers over all 65536 first words: every form that names address registers with steps (Rn/R45/R0123+step, ar- and arp-selected "
+               "registers) steps them as configured (4 selector configurations), and every form that accesses memory at an address register's value "
+               "accesses the bit-reversed address when bit reversal is enabled for that register";
     res.bound = "all 65536 start values; all 512 modulo values and all offsets; all 128 7-bit steps; all ar/arp selector and step-code combinations";
     res.assumptions = {"with modulo enabled only +1/-1 (and zero) steps are defined by the statement; other steps are only checked for the alignment guarantee",
                        "bit reversal together with modulo, and one instruction using the same register twice, are outside the statement",
